@@ -380,8 +380,6 @@ class Tupl(Combinator[tuple]):
     def deserialize(
         self, env: CombinatorEnv, data: str, idx: int
     ) -> Optional[Tuple[int, List[tuple]]]:
-        if idx == len(data):
-            return None
         parts = []
         ofs = 0
         for element in self._elements:
@@ -511,6 +509,8 @@ class Rooms(Combinator[RoomsType]):
             raise ValueError("Rooms can serialize only List[List[Tuple[int, int]]]")
         height = env.height
         width = env.width
+        if height <= 0 or width <= 0:
+            raise ValueError("Rooms needs a board with at least one cell")
         room_id = [[-1 for _ in range(width)] for _ in range(height)]
         for i, room in enumerate(d):
             if not isinstance(room, list):
@@ -558,10 +558,10 @@ class Rooms(Combinator[RoomsType]):
     def _deserialize(
         self, env: CombinatorEnv, data: str, idx: int
     ) -> Optional[Tuple[int, List[RoomsType]]]:
-        if idx == len(data):
-            raise ValueError("index out of bounds")
         height = env.height
         width = env.width
+        if height <= 0 or width <= 0:
+            raise ValueError("Rooms needs a board with at least one cell")
 
         combinator = Tupl(
             Grid(MultiDigit(base=2, digits=5), height=height, width=width - 1),
